@@ -54,7 +54,8 @@ def strategy(draw, tier):
             'delays': delays if not big else [0] * rows, 'progress': draw(st.sampled_from([None, None, 'tqdm'])),
             'return_samples': draw(st.sampled_from([True, True, False])), 'rs_in_dict': draw(st.sampled_from([None, None, True, False])),
             'via': draw(st.sampled_from(['func', 'group'])), 'layout': draw(st.sampled_from(['C', 'C', 'C', 'F'])),
-            'dtype': draw(st.sampled_from(['float64', 'float64', 'float64', 'float32', 'int64'])), 'refit': draw(st.booleans())}
+            'dtype': draw(st.sampled_from(['float64', 'float64', 'float64', 'float32', 'int64'])), 'refit': draw(st.booleans()),
+            'omit_defaults': draw(st.booleans())}
 
 
 def check(case, rec):
@@ -97,8 +98,12 @@ def check(case, rec):
         with warnings.catch_warnings():
             warnings.simplefilter('ignore')
             if via == 'func':
-                out = with_timeout(lambda: guarded(compute_features_2d, X, fs, fr, compute_features_kwargs=arg, axis=0,
-                                                   return_samples=rs, n_jobs=case['n_jobs'], progress=case['progress']), 90)
+                kw = dict(compute_features_kwargs=arg, axis=0, return_samples=rs, n_jobs=case['n_jobs'], progress=case['progress'])
+                if case.get('omit_defaults'):
+                    for key, default in (('axis', 0), ('return_samples', True), ('progress', None), ('compute_features_kwargs', None)):
+                        if kw[key] is default or (kw[key] == default and isinstance(kw[key], (int, bool))):
+                            kw.pop(key)
+                out = with_timeout(lambda: guarded(compute_features_2d, X, fs, fr, **kw), 90)
                 models = None
             else:
                 o = gc.materialise(opts) or {}
